@@ -60,6 +60,8 @@ def main():
     c.model("DiffTree.tla", "DiffTree.cfg")
     vf.pmap(lambda i: c.validate("DiffTreeTrace.tla", "DiffTreeTrace.cfg", tree_events[i:i + 400], case_of=case_of), range(0, len(tree_events), 400), jobs=6)
     c.cov["diff_forests_validated"] = len(tree_events)
+    c.cov["diff_forests_with_redundant_nodes"] = sum(1 for t in tree_events if any(n["red"] for n in t["nodes"]))
+    c.cov["diff_forests_with_filtered_interfaces"] = sum(1 for t in tree_events if any(n["filtered"] and n["parent"] == 0 for n in t["nodes"]))
     c.cov["evaluations"] += len(tree_events)
     c.finish()
 
